@@ -43,9 +43,88 @@ type C13Case struct {
 	Perm  []int     `json:"perm"`          // order in which computations may start / publish
 	Mode  string    `json:"mode"`          // start | publish
 	Pre   bool      `json:"pre,omitempty"` // the documents are open, clean and settled before the burst (every step is a change)
+	// mode "free": any interleaving of the notifications with the two stages of every analysis. Events in order:
+	// -1 = the next notification is sent; k >= 0 = the analysis of step k moves on (first from its start to the
+	// point of publishing, then through publishing to its end)
+	Sched []int `json:"sched,omitempty"`
+	Root  bool  `json:"root,omitempty"` // the server has the documents' folder as workspace; every step is on main.journal
 }
 
 var c13URIs []string
+var c13Dir string
+
+// freeGate holds every analysis twice — at its first statement and at the point of publishing —
+// and knows analyses by the order in which they arrive (the driver sends the next notification
+// only when the analysis of the previous one has arrived).
+type freeGate struct {
+	mu       sync.Mutex
+	active   bool
+	arrivals int
+	byGo     map[uint64]int
+	stage    map[int]int // 1 parked at start, 2 running, 3 parked at publish, 4 publishing, 5 done
+	ch       map[int]chan struct{}
+}
+
+var fgate = &freeGate{}
+
+func (g *freeGate) reset(active bool) {
+	g.mu.Lock()
+	g.active, g.arrivals, g.byGo, g.stage, g.ch = active, 0, map[uint64]int{}, map[int]int{}, map[int]chan struct{}{}
+	g.mu.Unlock()
+}
+
+func (g *freeGate) handler(name string, args ...string) {
+	g.mu.Lock()
+	if !g.active {
+		g.mu.Unlock()
+		return
+	}
+	id := goid()
+	switch name {
+	case "diag.start":
+		k := g.arrivals
+		g.arrivals++
+		g.byGo[id] = k
+		g.stage[k] = 1
+		ch := make(chan struct{})
+		g.ch[k] = ch
+		g.mu.Unlock()
+		<-ch
+		return
+	case "diag.publish":
+		if k, ok := g.byGo[id]; ok {
+			g.stage[k] = 3
+			ch := make(chan struct{})
+			g.ch[k] = ch
+			g.mu.Unlock()
+			<-ch
+			return
+		}
+	case "diag.done":
+		if k, ok := g.byGo[id]; ok {
+			g.stage[k] = 5
+			delete(g.byGo, id)
+		}
+	}
+	g.mu.Unlock()
+}
+
+func (g *freeGate) stageOf(k int) int { g.mu.Lock(); defer g.mu.Unlock(); return g.stage[k] }
+func (g *freeGate) nArrived() int     { g.mu.Lock(); defer g.mu.Unlock(); return g.arrivals }
+
+// advance lets analysis k run to its next stopping point.
+func (g *freeGate) advance(k int) {
+	g.mu.Lock()
+	st, ch := g.stage[k], g.ch[k]
+	if st != 1 && st != 3 {
+		g.mu.Unlock()
+		return
+	}
+	g.stage[k] = st + 1
+	g.mu.Unlock()
+	close(ch)
+	waitUntil(func() bool { s := g.stageOf(k); return s == 3 || s == 5 }, 5*time.Second)
+}
 
 // c13Setup puts the two documents beside a real file they may include.
 func c13Setup() {
@@ -55,11 +134,15 @@ func c13Setup() {
 	dir := filepath.Join(scratch(), "c13")
 	_ = os.MkdirAll(dir, 0o755)
 	_ = os.WriteFile(filepath.Join(dir, "inc.journal"), []byte("account a:b\n\n2023-12-31 included\n    a:b  1 EUR\n    c:d\n"), 0o644)
-	c13URIs = []string{"file://" + filepath.Join(dir, "a.journal"), "file://" + filepath.Join(dir, "b.journal")}
+	_ = os.WriteFile(filepath.Join(dir, "main.journal"), []byte(c13Text(2, 0)), 0o644)
+	c13Dir = dir
+	c13URIs = []string{"file://" + filepath.Join(dir, "main.journal"), "file://" + filepath.Join(dir, "b.journal")}
 }
 
 func c13Text(kind, val int) string {
-	switch kind % 6 {
+	switch kind % 7 {
+	case 6: // as the default kind, with the account declared: no warning
+		return fmt.Sprintf("account a:b\naccount x%d:y\n2024-01-01 undeclared\n    x%d:y  1 EUR\n    a:b\n", val, val)
 	case 4:
 		return "" // everything deleted
 	case 5:
@@ -182,9 +265,18 @@ func waitUntil(cond func() bool, d time.Duration, short ...any) bool {
 
 func c13Check(c *C13Case) (ds []ev.Discrepancy, nontrivial bool) {
 	c13Setup()
-	verifhook.SetHandler(sgate.handler)
+	if c.Mode == "free" {
+		fgate.reset(false)
+		verifhook.SetHandler(fgate.handler)
+	} else {
+		verifhook.SetHandler(sgate.handler)
+	}
 	defer verifhook.SetHandler(nil)
-	h, err := lspx.New(lspx.Options{})
+	srvOpts := lspx.Options{}
+	if c.Root {
+		srvOpts.RootDir = c13Dir
+	}
+	h, err := lspx.New(srvOpts)
 	if err != nil {
 		return []ev.Discrepancy{ev.D("c13.harness", "%v", err)}, false
 	}
@@ -200,7 +292,7 @@ func c13Check(c *C13Case) (ds []ev.Discrepancy, nontrivial bool) {
 		final[st.Doc] = i
 	}
 	for i, st := range c.Steps {
-		f, err := lspx.New(lspx.Options{})
+		f, err := lspx.New(srvOpts)
 		if err != nil {
 			return []ev.Discrepancy{ev.D("c13.harness", "%v", err)}, false
 		}
@@ -238,6 +330,78 @@ func c13Check(c *C13Case) (ds []ev.Discrepancy, nontrivial bool) {
 	sgate.mu.Unlock()
 	if c.Mode == "publish" {
 		h.C.SetPark(true)
+	}
+	send := func(i int) {
+		st := c.Steps[i]
+		uri := c13URIs[st.Doc]
+		if !opened[st.Doc] {
+			_ = h.Open(uri, texts[i])
+			opened[st.Doc] = true
+		} else {
+			_ = h.Change(uri, i+2, []refclient.Change{{Text: texts[i]}})
+		}
+		cur[st.Doc] = texts[i]
+	}
+	if c.Mode == "free" {
+		fgate.reset(true)
+		sent := 0
+		var order []int
+		for _, e := range c.Sched {
+			if e < 0 {
+				if sent < len(c.Steps) {
+					send(sent)
+					sent++
+					waitUntil(func() bool { return fgate.nArrived() >= sent }, 5*time.Second)
+				}
+				continue
+			}
+			if e < sent {
+				if fgate.stageOf(e) == 3 {
+					order = append(order, e) // publishes now
+				}
+				fgate.advance(e)
+			}
+		}
+		for ; sent < len(c.Steps); sent++ {
+			send(sent)
+			waitUntil(func() bool { return fgate.nArrived() > sent }, 5*time.Second)
+		}
+		for k := range c.Steps {
+			if fgate.stageOf(k) == 1 {
+				fgate.advance(k)
+			}
+			if fgate.stageOf(k) == 3 {
+				order = append(order, k)
+				fgate.advance(k)
+			}
+		}
+		fgate.reset(false)
+		if err := h.Quiesce(); err != nil {
+			return []ev.Discrepancy{ev.D("c13.harness", "%v", err)}, false
+		}
+		for d, fk := range final {
+			last := -1
+			for _, k := range order {
+				if c.Steps[k].Doc == d {
+					last = k
+				}
+			}
+			if last >= 0 && last != fk {
+				nontrivial = true
+			}
+			got, ok := h.C.LastDiagnostics(c13URIs[d])
+			if !ok {
+				if wantKey[fk] != "" {
+					ds = append(ds, ev.D("c13.final.none", "document %d: nothing was published (mode free, schedule %v), final text %q has diagnostics %q", d, c.Sched, texts[fk], wantKey[fk]))
+				}
+				continue
+			}
+			if diagKey(got) != wantKey[fk] {
+				ds = append(ds, ev.D("c13.final.stale", "document %d: after the burst (mode free, schedule %v, publishing order %v) the last published diagnostics are %q; the final text %q has %q",
+					d, c.Sched, order, diagKey(got), texts[fk], wantKey[fk]))
+			}
+		}
+		return ds, nontrivial
 	}
 	// the burst, issued without waiting
 	for i, st := range c.Steps {
@@ -451,6 +615,68 @@ func TestC13Rand(t *testing.T) {
 		perm := rapid.Permutation(seq(n)).Draw(t, "perm")
 		c := &C13Case{Steps: steps, Perm: perm, Mode: rapid.SampledFrom([]string{"start", "publish", "computed"}).Draw(t, "mode"), Pre: rapid.Bool().Draw(t, "pre")}
 		report(t, recC13, "c13", c, c13Run(c))
+	})
+}
+
+// TestC13Free: any interleaving of the notifications with the start and the publication of every
+// analysis; versions may repeat an earlier text exactly (A, B, A), and with a workspace folder what an
+// analysis of main.journal finds depends on the workspace's copy of it at the time it runs.
+func TestC13Free(t *testing.T) {
+	defer recC13.Flush()
+	rapid.Check(t, func(t *rapid.T) {
+		n := rapid.IntRange(2, 5).Draw(t, "n")
+		c := &C13Case{Mode: "free", Root: rapid.IntRange(0, 2).Draw(t, "root") != 0, Pre: rapid.Bool().Draw(t, "pre")}
+		for i := 0; i < n; i++ {
+			d := 0
+			if !c.Root && rapid.IntRange(0, 3).Draw(t, "doc") == 0 {
+				d = 1
+			}
+			c.Steps = append(c.Steps, C13Step{Doc: d, Kind: rapid.SampledFrom([]int{3, 6, 3, 6, 0, 2, 4, 5}).Draw(t, "kind"), Val: rapid.SampledFrom([]int{1, 1, 2}).Draw(t, "val")})
+		}
+		if rapid.IntRange(0, 2).Draw(t, "returns") == 0 {
+			// a text that comes back (A, B, A), where B changes what the workspace knows about A's accounts
+			v := rapid.SampledFrom([]int{1, 2}).Draw(t, "rv")
+			ka, kb := 3, 6
+			if rapid.Bool().Draw(t, "swap") {
+				ka, kb = 6, 3
+			}
+			c.Root, n = true, 3
+			c.Steps = []C13Step{{Kind: ka, Val: v}, {Kind: kb, Val: v}, {Kind: ka, Val: v}}
+		}
+		// a random linear extension of: notifications in order; notification k < start of analysis k < its publication
+		sent, stage := 0, make([]int, n)
+		for {
+			var enabled []int
+			if sent < n {
+				enabled = append(enabled, -1)
+			}
+			for k := 0; k < sent; k++ {
+				if stage[k] < 2 {
+					enabled = append(enabled, k)
+				}
+			}
+			if len(enabled) == 0 {
+				break
+			}
+			e := rapid.SampledFrom(enabled).Draw(t, "event")
+			c.Sched = append(c.Sched, e)
+			if e < 0 {
+				sent++
+			} else {
+				stage[e]++
+			}
+		}
+		ds, nt := c13Check(c)
+		same := false
+		for i := range c.Steps {
+			for j := 0; j < i; j++ {
+				if c.Steps[i].Doc == c.Steps[j].Doc && c.Steps[i].Kind == c.Steps[j].Kind && c.Steps[i].Val == c.Steps[j].Val {
+					same = true
+				}
+			}
+		}
+		recC13.Case(nt, mustJSON(c), "mode:free", fmt.Sprintf("burst:%d", n), fmt.Sprintf("workspace-root:%v", c.Root), fmt.Sprintf("a-text-returns:%v", same))
+		report(t, recC13, "c13", c, ds)
 	})
 }
 
